@@ -1102,8 +1102,10 @@ def stream_pointsseq(c, quick):
         seq = PointsSequence.from_iter(lst, 1)
         hist = ['from_iter%r' % ([p.npoints for p in lst],)]
         failed = False
-        for _ in range(rng.randint(0, 4)):
+        nsteps = rng.randint(1, 4)
+        for _ in range(nsteps):
             op = rng.choice(['take', 'take-sorted', 'compress', 'repeat', 'chain', 'product', 'slice'])
+            if _ == nsteps - 1 and rng.random() < .6: op = 'product'
             arg = None
             try:
                 if op in ('take', 'take-sorted') and lst:
@@ -1119,8 +1121,8 @@ def stream_pointsseq(c, quick):
                     other = [rng.choice(items) for _ in range(rng.randint(0, 3))]
                     arg = [p.npoints for p in other]
                     seq = seq.chain(PointsSequence.from_iter(other, 1)); lst = lst + other
-                elif op == 'product' and len(lst) <= 4:
-                    other = [rng.choice(items[1:]) for _ in range(rng.randint(1, 2))]
+                elif op == 'product' and len(lst) <= 6:
+                    other = [rng.choice(items[1:]) for _ in range(rng.randint(1, 3))]
                     arg = [p.npoints for p in other]
                     seq = seq.product(PointsSequence.from_iter(other, 1)); lst = [a * b for a in lst for b in other]
                 elif op == 'slice' and lst:
